@@ -5,34 +5,22 @@ import (
 	"fmt"
 	"testing"
 
-	"go.minekube.com/gate/pkg/edition/java/proto/packet/chat"
-	"go.minekube.com/gate/pkg/edition/java/proxy/verifh/gatevanilla"
-	"go.minekube.com/gate/pkg/gate/proto"
+	"github.com/Tnze/go-mc/nbt"
 )
 
 func TestProbe(t *testing.T) {
-	// compound{text:"x", extra:[compound{text:"", color:"white"}]}
-	nbt := []byte{10,
-		8, 0, 4, 't', 'e', 'x', 't', 0, 1, 'x',
-		9, 0, 5, 'e', 'x', 't', 'r', 'a', 10, 0, 0, 0, 1,
-		8, 0, 4, 't', 'e', 'x', 't', 0, 0,
-		8, 0, 5, 'c', 'o', 'l', 'o', 'r', 0, 5, 'w', 'h', 'i', 't', 'e',
-		0,
-		0}
-	for _, p := range []int{765, 773} {
-		h, err := chat.ReadComponentHolder(bytes.NewReader(nbt), proto.Protocol(p))
-		fmt.Println("read err", err)
-		c, err := h.AsComponent()
-		fmt.Printf("protocol %d: err=%v json=%s comp=%s\n", p, err, h.JSON, gatevanilla.CompOf(c).Key())
+	for _, b := range [][]byte{
+		{10, 8, 0, 4, 't', 'e', 'x', 't', 0, 0, 0},
+		{8, 0, 2, 'M', '['},
+		{8, 0, 3, 'a', ' ', 'b'},
+		{10, 8, 0, 4, 't', 'e', 'x', 't', 0, 3, '1', '2', '3', 0},
+		{10, 8, 0, 4, 't', 'e', 'x', 't', 0, 4, 't', 'r', 'u', 'e', 0},
+		{10, 8, 0, 4, 't', 'e', 'x', 't', 0, 4, 'a', ':', ' ', 'b', 0},
+	} {
+		var m nbt.RawMessage
+		d := nbt.NewDecoder(bytes.NewReader(b))
+		d.NetworkFormat(true)
+		_, err := d.Decode(&m)
+		fmt.Printf("%v -> snbt %q err=%v\n", b, m.String(), err)
 	}
-	// bare TAG_String
-	h, err := chat.ReadComponentHolder(bytes.NewReader([]byte{8, 0, 2, 'h', 'i'}), 765)
-	c, err2 := h.AsComponent()
-	fmt.Printf("TAG_String root: %v %v json=%s comp=%s\n", err, err2, h.JSON, gatevanilla.CompOf(c).Key())
-	h, err = chat.ReadComponentHolder(bytes.NewReader([]byte{8, 0, 0}), 765)
-	c, err2 = h.AsComponent()
-	fmt.Printf("TAG_String root empty: %v %v json=%s comp=%s\n", err, err2, h.JSON, gatevanilla.CompOf(c).Key())
-	h, err = chat.ReadComponentHolder(bytes.NewReader([]byte{10, 8, 0, 4, 't', 'e', 'x', 't', 0, 0, 0}), 765)
-	c, err2 = h.AsComponent()
-	fmt.Printf("compound{text:\"\"}: %v %v json=%s comp=%s\n", err, err2, h.JSON, gatevanilla.CompOf(c).Key())
 }
